@@ -504,11 +504,58 @@ fn c02(tier: Tier) -> i32 {
         }
         cases.push(c);
     }
+    // keys whose variable carries a formatter: every flavour must give what ICU4X gives for the locale - the string and
+    // the view back-ends call different run-time helpers, and small / negative / fractional numbers, a locale with
+    // non-Latin digits (bn) and one with a non-ASCII minus sign (sv) tell them apart
+    {
+        let locales = ["en", "bn", "sv"];
+        let mut p = Project::new(Config::simple("en", &locales));
+        let fmts: [(&str, &str, &str); 5] = [
+            ("fnum", "number", "Auto"),
+            ("fnever", "number(grouping_strategy: never)", "Never"),
+            ("falways", "number(grouping_strategy: always)", "Always"),
+            ("fmin2", "number(grouping_strategy: min2)", "Min2"),
+            ("fauto", "number( grouping_strategy : auto )", "Auto"),
+        ];
+        for l in locales {
+            p.set_file(None, l, fmts.iter().map(|(k, f, _)| (k.to_string(), s(vec![text(&format!("[{l}]")), var_fmt("v", &format!(" {f}"))]))).collect());
+        }
+        let mut c = Case::new(&format!("c02_{}_fmt", tier.name()), p);
+        c.probe.items.push_str(C18_ITEMS);
+        c.probe.items.push_str(CTX_ITEMS);
+        let values = ["2024.0f64", "-15.0f64", "0.0f64", "1234567.5f64", "7i32", "-1234567i64", "42u8"];
+        let as_f64 = |v: &str| v.trim_end_matches("f64").trim_end_matches("i32").trim_end_matches("i64").trim_end_matches("u8").parse::<f64>().unwrap();
+        for (key, _, gs) in fmts {
+            for l in locales {
+                let lv = locale_variant(l);
+                for (vi, v) in values.iter().enumerate() {
+                    if tier == Tier::Quick && key != "fnever" && key != "fnum" && vi > 2 {
+                        continue;
+                    }
+                    let direct = format!("d_num({l:?}, GroupingStrategy::{gs}, {:?})", as_f64(v));
+                    for fl in ALL_FLAVOURS {
+                        let mac = fl.macro_name();
+                        let call = match (fl.needs_ctx(), fl.is_view()) {
+                            (false, false) => format!("{mac}!({lv}, {key}, v = {v}).to_string()"),
+                            (false, true) => format!("html({mac}!({lv}, {key}, v = move || {v}))"),
+                            (true, false) => format!("{{ ctx().set_locale({lv}); {mac}!(ctx(), {key}, v = {v}).to_string() }}"),
+                            (true, true) => format!("{{ ctx().set_locale({lv}); html({mac}!(ctx(), {key}, v = move || {v})) }}"),
+                        };
+                        let id = c.next_id;
+                        c.next_id += 1;
+                        c.probe.stmts.push(format!("cmp({id}, || {call}, \"[{l}]\", {direct});"));
+                        c.expected.insert(id, Expect { probe: c.probe.name.clone(), what: format!("{fl:?} {key} @{l} value {v}"), text: "^OK".into(), suffix: false });
+                    }
+                }
+            }
+        }
+        cases.push(c);
+    }
     execute(&rep, "C02", cases);
     rep.nontriv(n_keys * m.locales.len() as u64);
     rep.sample(json!({"probe_call": "{ ctx().set_locale(Locale::de); let c = ctx(); let c = scope_i18n!(c, main); let c = scope_i18n!(c, g); t_string!(c, h.interp, x = \"«x»\", y = \"«y»\").to_string() }"}));
     let mut cov = serde_json::Map::new();
-    cov.insert("rule".into(), json!("project with one key of every kind (string, number, bool, interpolation, components, u8 range, f32 range, cardinal plural, ordinal plural, foreign keys plain / with renamed count / with literal count) at top level and at depth 3, in two namespaces, three locales (de inherits fr, holds explicit nulls and gaps); every key x every locale x 9 flavours (td/t/tu x view/string/display) x scoping at every proper prefix (one step, chained one segment at a time, use_i18n_scoped!) x counts {0,1,2,5}, plus the const accessor chain for plain literals, plus t! / tu! views built under every other locale and rendered after the context moved to the locale in question; context flavours run on a natively created I18nContext whose locale is set before each call; every record must equal the reference rendering (hence all flavours agree pairwise); quick tier thins view flavours under scoping"));
+    cov.insert("rule".into(), json!("project with one key of every kind (string, number, bool, interpolation, components, u8 range, f32 range, cardinal plural, ordinal plural, foreign keys plain / with renamed count / with literal count) at top level and at depth 3, in two namespaces, three locales (de inherits fr, holds explicit nulls and gaps); every key x every locale x 9 flavours (td/t/tu x view/string/display) x scoping at every proper prefix (one step, chained one segment at a time, use_i18n_scoped!) x counts {0,1,2,5}, plus the const accessor chain for plain literals, plus t! / tu! views built under every other locale and rendered after the context moved to the locale in question; context flavours run on a natively created I18nContext whose locale is set before each call; every record must equal the reference rendering (hence all flavours agree pairwise); a second project (en, bn, sv) whose keys carry number formatters (default, never, always, min2, spaced spelling): each of the 9 flavours x 7 values (positive, negative, zero, fractional, i32 / i64 / u8 typed) must equal the direct ICU4X call for the locale; quick tier thins view flavours under scoping"));
     cov.insert("exhaustive".into(), json!(tier == Tier::Thorough));
     rep.finish(cov, &["tu!/tu_string! read the context untracked: same value, no subscription (subscription is not observable here)"])
 }
@@ -681,8 +728,58 @@ fn c13_check(names: &[&str], default: &str) -> (u64, Vec<String>) {
         let enc = <codee::string::FromToStringCodec as codee::Encoder<Locale>>::encode(l).unwrap_or_default();
         if enc != name { problems.push(format!("cookie codec encodes {name} as {enc:?}")); }
         if serde_json::from_str::<Locale>(&serde_json::to_string(l).unwrap()).ok() != Some(*l) { problems.push(format!("serde round trip of {name} fails")); }
+        // formats that are not self-describing (bincode, postcard) replay the very calls the two impls make: what
+        // Serialize writes must be what Deserialize asks for
+        let wrote = serde::Serialize::serialize(l, RecSer).unwrap_or_else(|e| format!("error:{e}"));
+        let asks = match <Locale as serde::Deserialize>::deserialize(RecDe) { Err(e) => e.to_string(), Ok(_) => "nothing".to_string() };
+        let fits = (wrote == format!("str:{name}") && (asks == "str" || asks == "string")) || (wrote.starts_with("unit_variant:") && asks == "enum");
+        if !fits { problems.push(format!("serde: Serialize of {name} writes `{wrote}` but Deserialize asks the format for `{asks}`: no round trip through a format that is not self-describing")); }
     }
     (n, problems)
+}
+
+type SErr = serde::de::value::Error;
+struct RecSer;
+macro_rules! other { ($($f:ident: $t:ty),*) => { $(fn $f(self, _v: $t) -> Result<String, SErr> { Ok(concat!("other:", stringify!($f)).to_string()) })* } }
+impl serde::Serializer for RecSer {
+    type Ok = String;
+    type Error = SErr;
+    type SerializeSeq = serde::ser::Impossible<String, SErr>;
+    type SerializeTuple = serde::ser::Impossible<String, SErr>;
+    type SerializeTupleStruct = serde::ser::Impossible<String, SErr>;
+    type SerializeTupleVariant = serde::ser::Impossible<String, SErr>;
+    type SerializeMap = serde::ser::Impossible<String, SErr>;
+    type SerializeStruct = serde::ser::Impossible<String, SErr>;
+    type SerializeStructVariant = serde::ser::Impossible<String, SErr>;
+    other!(serialize_bool: bool, serialize_i8: i8, serialize_i16: i16, serialize_i32: i32, serialize_i64: i64, serialize_u8: u8, serialize_u16: u16, serialize_u32: u32, serialize_u64: u64, serialize_f32: f32, serialize_f64: f64, serialize_char: char, serialize_bytes: &[u8]);
+    fn serialize_str(self, v: &str) -> Result<String, SErr> { Ok(format!("str:{v}")) }
+    fn serialize_none(self) -> Result<String, SErr> { Ok("other:none".into()) }
+    fn serialize_some<T: ?Sized + serde::Serialize>(self, _v: &T) -> Result<String, SErr> { Ok("other:some".into()) }
+    fn serialize_unit(self) -> Result<String, SErr> { Ok("other:unit".into()) }
+    fn serialize_unit_struct(self, _n: &'static str) -> Result<String, SErr> { Ok("other:unit_struct".into()) }
+    fn serialize_unit_variant(self, n: &'static str, i: u32, v: &'static str) -> Result<String, SErr> { Ok(format!("unit_variant:{n}:{i}:{v}")) }
+    fn serialize_newtype_struct<T: ?Sized + serde::Serialize>(self, _n: &'static str, _v: &T) -> Result<String, SErr> { Ok("other:newtype_struct".into()) }
+    fn serialize_newtype_variant<T: ?Sized + serde::Serialize>(self, _n: &'static str, _i: u32, _v: &'static str, _x: &T) -> Result<String, SErr> { Ok("other:newtype_variant".into()) }
+    fn serialize_seq(self, _l: Option<usize>) -> Result<Self::SerializeSeq, SErr> { Err(serde::ser::Error::custom("other:seq")) }
+    fn serialize_tuple(self, _l: usize) -> Result<Self::SerializeTuple, SErr> { Err(serde::ser::Error::custom("other:tuple")) }
+    fn serialize_tuple_struct(self, _n: &'static str, _l: usize) -> Result<Self::SerializeTupleStruct, SErr> { Err(serde::ser::Error::custom("other:tuple_struct")) }
+    fn serialize_tuple_variant(self, _n: &'static str, _i: u32, _v: &'static str, _l: usize) -> Result<Self::SerializeTupleVariant, SErr> { Err(serde::ser::Error::custom("other:tuple_variant")) }
+    fn serialize_map(self, _l: Option<usize>) -> Result<Self::SerializeMap, SErr> { Err(serde::ser::Error::custom("other:map")) }
+    fn serialize_struct(self, _n: &'static str, _l: usize) -> Result<Self::SerializeStruct, SErr> { Err(serde::ser::Error::custom("other:struct")) }
+    fn serialize_struct_variant(self, _n: &'static str, _i: u32, _v: &'static str, _l: usize) -> Result<Self::SerializeStructVariant, SErr> { Err(serde::ser::Error::custom("other:struct_variant")) }
+}
+/// answers every request with an error naming the request
+struct RecDe;
+macro_rules! asks { ($($f:ident => $n:literal),*) => { $(fn $f<V: serde::de::Visitor<'de>>(self, _v: V) -> Result<V::Value, SErr> { Err(serde::de::Error::custom($n)) })* } }
+impl<'de> serde::Deserializer<'de> for RecDe {
+    type Error = SErr;
+    asks!(deserialize_any => "any", deserialize_bool => "bool", deserialize_i8 => "i8", deserialize_i16 => "i16", deserialize_i32 => "i32", deserialize_i64 => "i64", deserialize_u8 => "u8", deserialize_u16 => "u16", deserialize_u32 => "u32", deserialize_u64 => "u64", deserialize_f32 => "f32", deserialize_f64 => "f64", deserialize_char => "char", deserialize_str => "str", deserialize_string => "string", deserialize_bytes => "bytes", deserialize_byte_buf => "byte_buf", deserialize_option => "option", deserialize_unit => "unit", deserialize_seq => "seq", deserialize_map => "map", deserialize_identifier => "identifier", deserialize_ignored_any => "ignored_any");
+    fn deserialize_unit_struct<V: serde::de::Visitor<'de>>(self, _n: &'static str, _v: V) -> Result<V::Value, SErr> { Err(serde::de::Error::custom("unit_struct")) }
+    fn deserialize_newtype_struct<V: serde::de::Visitor<'de>>(self, _n: &'static str, _v: V) -> Result<V::Value, SErr> { Err(serde::de::Error::custom("newtype_struct")) }
+    fn deserialize_tuple<V: serde::de::Visitor<'de>>(self, _l: usize, _v: V) -> Result<V::Value, SErr> { Err(serde::de::Error::custom("tuple")) }
+    fn deserialize_tuple_struct<V: serde::de::Visitor<'de>>(self, _n: &'static str, _l: usize, _v: V) -> Result<V::Value, SErr> { Err(serde::de::Error::custom("tuple_struct")) }
+    fn deserialize_struct<V: serde::de::Visitor<'de>>(self, _n: &'static str, _f: &'static [&'static str], _v: V) -> Result<V::Value, SErr> { Err(serde::de::Error::custom("struct")) }
+    fn deserialize_enum<V: serde::de::Visitor<'de>>(self, _n: &'static str, _f: &'static [&'static str], _v: V) -> Result<V::Value, SErr> { Err(serde::de::Error::custom("enum")) }
 }
 "##;
 
@@ -734,7 +831,7 @@ fn c13(tier: Tier) -> i32 {
     rep.nontriv(sets.len() as u64 * 100);
     rep.sample(json!({"locales": sets[5].0, "default": sets[5].1, "near_miss_examples": ["SR-latn", "sr-Lat", "sr-Latn ", "sr_Latn", "zh-Hans-TW"]}));
     let mut cov = serde_json::Map::new();
-    cov.insert("rule".into(), json!(format!("locale sets {:?} (default listed first / last / not at all; regions, scripts, variants, RTL languages); for each a probe crate whose generated enum is checked inside the probe: get_all (set, no repeats, default first), as_str/Display/AsRef<str>/serde == configured name, as_icu_locale/as_langid/AsRef == name.parse(), direction == icu_locid_transform::LocaleDirectionality, ScopedLocale forwarding, and FromStr / cookie codec (FromToStringCodec) / serde over every near-miss string: all case flips, every proper prefix and suffix, every one-character insertion/deletion/substitution over the letters of the names and - _ space tab, surrounding whitespace (6 kinds), separator changes, and every string of length <= 4 over the names' letters; a string maps to a locale only if it is exactly its name (surrounding whitespace may be accepted), anything else -> Err / default for serde", sets)));
+    cov.insert("rule".into(), json!(format!("locale sets {:?} (default listed first / last / not at all; regions, scripts, variants, RTL languages); for each a probe crate whose generated enum is checked inside the probe: get_all (set, no repeats, default first), as_str/Display/AsRef<str>/serde == configured name, as_icu_locale/as_langid/AsRef == name.parse(), direction == icu_locid_transform::LocaleDirectionality, ScopedLocale forwarding, Serialize and Deserialize making matching calls (a string written and a string asked for: the round trip through formats that are not self-describing), and FromStr / cookie codec (FromToStringCodec) / serde over every near-miss string: all case flips, every proper prefix and suffix, every one-character insertion/deletion/substitution over the letters of the names and - _ space tab, surrounding whitespace (6 kinds), separator changes, and every string of length <= 4 over the names' letters; a string maps to a locale only if it is exactly its name (surrounding whitespace may be accepted), anything else -> Err / default for serde", sets)));
     cov.insert("exhaustive".into(), json!(true));
     rep.finish(cov, &["ICU4X data defines CLDR directionality and identifier canonicalisation (trusted base)"])
 }
@@ -1388,7 +1485,8 @@ fn c18(tier: Tier) -> i32 {
     // split over several probe crates to keep compile units moderate
     let per = tier.pick(40, 30);
     let mut built = vec![];
-    let num_values: Vec<f64> = vec![1234567.891, 0.0, 42.0, -42.0];
+    // (.. whole numbers beyond the 64-bit integers, the negative zero)
+    let num_values: Vec<f64> = vec![1234567.891, 0.0, 42.0, -42.0, 1e19, 6.022e23, -0.0, 9007199254740993.0];
     let lists: Vec<&str> = vec!["[\"A\", \"B\", \"C\"]", "[\"A\"]", "[\"A\", \"B\"]", "[\"\"; 0]"];
     // position of each declaration inside its family: the quick tier runs the view / format-macro flavours on the
     // first two declarations of every family and on every third of the rest
@@ -1607,7 +1705,7 @@ fn c18(tier: Tier) -> i32 {
     rep.nontriv(n_cases as u64 * locales.len() as u64);
     rep.sample(json!({"key": "[fr]{{ v, currency(width: narrow; currency_code: EUR) }}", "probe": "cmp(id, td_string!(Locale::fr_CA, f27, v = 1234567.891f64).to_string(), format!(\"[fr]{}\", d_cur(\"fr-CA\", CurrencyWidth::Narrow, \"EUR\", 1234567.891)))"}));
     let mut cov = serde_json::Map::new();
-    cov.insert("rule".into(), json!(format!("{n_cases} formatter declarations (every name x every documented argument value + omitted + invalid, unknown argument, swapped order) as keys of a project with locales en, fr, de, ja, ar, bn (non-Latin default digits) and fr-CA (all keys null, inherits fr: fr's declaration rendered for fr-CA); for each key x locale x values (numbers 1234567.891, 0, 42, -42; a fixed date, time, datetime; lists of 3, 1, 2, 0 items) td_string! (all), td! -> html and td_format_string! / td_format_display! / td_format! -> html (quick: the first two declarations of every family and every second or third of the rest) are compared inside the probe with a direct ICU4X call for the locale being rendered; on a context: for the first declaration of every family and every ordered pair of 4 locales, a t_format! / tu_format! / t! view created under the first locale and rendered after set_locale to the second must format for the second; cache histories: every sequence of length <= {} over 6 number-formatter lookups that collide pairwise on locale or on options, each element compared with its direct-ICU value whatever ran before; the number / currency / list declarations again in a probe built WITHOUT icu_compiled_data whose formatters come from a derived IcuDataProvider (set_icu_data_provider) - on the registering thread and on threads spawned afterwards", tier.pick(4, 5))));
+    cov.insert("rule".into(), json!(format!("{n_cases} formatter declarations (every name x every documented argument value + omitted + invalid, unknown argument, swapped order) as keys of a project with locales en, fr, de, ja, ar, bn (non-Latin default digits) and fr-CA (all keys null, inherits fr: fr's declaration rendered for fr-CA); for each key x locale x values (numbers 1234567.891, 0, 42, -42, 1e19, 6.022e23, -0.0, 2^53+1; a fixed date, time, datetime; lists of 3, 1, 2, 0 items) td_string! (all), td! -> html and td_format_string! / td_format_display! / td_format! -> html (quick: the first two declarations of every family and every second or third of the rest) are compared inside the probe with a direct ICU4X call for the locale being rendered; on a context: for the first declaration of every family and every ordered pair of 4 locales, a t_format! / tu_format! / t! view created under the first locale and rendered after set_locale to the second must format for the second; cache histories: every sequence of length <= {} over 6 number-formatter lookups that collide pairwise on locale or on options, each element compared with its direct-ICU value whatever ran before; the number / currency / list declarations again in a probe built WITHOUT icu_compiled_data whose formatters come from a derived IcuDataProvider (set_icu_data_provider) - on the registering thread and on threads spawned afterwards", tier.pick(4, 5))));
     cov.insert("exhaustive".into(), json!(tier == Tier::Thorough));
     rep.finish(cov, &["ICU4X formatting with compiled data is the reference (trusted base)", "thread interleavings of the cache are the loom engine's part of this check"])
 }
@@ -2207,6 +2305,125 @@ fn c07_c08(tier: Tier, pid: &str) -> i32 {
     rep.finish(cov, &["the compile error of a negative probe is attributed to the probed call: each bin contains nothing else"])
 }
 
+// ---------------------------------------------------------------------------------------------
+// C15 (L3 half): "otherwise the default" on GENERATED enums whose default is declared first / last / in the middle /
+// not at all (the RT engine's own enum is one fixed configuration)
+// ---------------------------------------------------------------------------------------------
+
+const C15_ITEMS: &str = r##"
+use leptos_i18n::Locale as _;
+fn exec() {
+    struct Noop;
+    impl any_spawner::CustomExecutor for Noop {
+        fn spawn(&self, _f: any_spawner::PinnedFuture<()>) {}
+        fn spawn_local(&self, _f: any_spawner::PinnedLocalFuture<()>) {}
+        fn poll_local(&self) {}
+    }
+    let _ = any_spawner::Executor::init_custom_executor(Noop);
+}
+fn header(accept: Option<&'static str>) -> leptos_i18n::context::UseLocalesOptions {
+    leptos_i18n::context::UseLocalesOptions::default().ssr_lang_header_getter(move || accept.map(String::from))
+}
+/// initial locale of a main context for this Accept-Language header (no cookie)
+fn resolve_main(accept: Option<&'static str>) -> String {
+    exec();
+    Owner::new().with(|| {
+        let opts = leptos_i18n::context::I18nContextOptions::<Locale>::default().enable_cookie(false).ssr_lang_header_getter(header(accept));
+        leptos_i18n::context::init_i18n_context_with_options::<Locale>(opts).get_locale_untracked().as_str().to_string()
+    })
+}
+/// .. of a sub-context without parent, cookie or initial locale
+fn resolve_orphan_sub(accept: Option<&'static str>) -> String {
+    exec();
+    Owner::new().with(|| leptos_i18n::context::init_i18n_subcontext_with_options::<Locale>(None, None, None, Some(header(accept))).get_locale_untracked().as_str().to_string())
+}
+fn resolve_fn(accept: Option<&'static str>) -> String {
+    exec();
+    Owner::new().with(|| {
+        let opts = leptos_i18n::context::I18nContextOptions::<Locale>::default().enable_cookie(false).ssr_lang_header_getter(header(accept));
+        leptos_i18n::locale::resolve_locale_with_options::<Locale>(opts).as_str().to_string()
+    })
+}
+"##;
+
+fn c15(tier: Tier) -> i32 {
+    let rep = Reporter::new("C15", "L3", tier);
+    // (declared locales, default)
+    let configs: Vec<(Vec<&str>, &str)> = vec![(vec!["fr", "de"], "en"), (vec!["fr", "de", "en"], "en"), (vec!["fr", "en", "de"], "en"), (vec!["en", "fr", "de"], "en"), (vec!["de"], "fr"), (vec!["en-GB", "fr-CA"], "pt-BR")];
+    let headers: Vec<Option<&str>> = vec![None, Some(""), Some("it"), Some("xx,yy"), Some("garbage!!"), Some("fr"), Some("de"), Some("en"), Some("it,de"), Some("de,fr"), Some("fr-CA,it"), Some("pt"), Some("en-US,en-GB")];
+    let mut cases = vec![];
+    for (ci, (locales, default)) in configs.iter().enumerate() {
+        let mut p = Project::new(Config::simple(default, locales));
+        let eff = p.cfg.effective_locales();
+        for l in &eff {
+            p.set_file(None, l, vec![("k".into(), st(&format!("[{l}]")))]);
+        }
+        let mut c = Case::new(&format!("c15_{}_{ci}", tier.name()), p);
+        c.probe.items.push_str(C15_ITEMS);
+        for h in &headers {
+            // the C12 oracle on the configured names: first entry some locale matches (exactly or as a less specific
+            // form); an exact match wins; nothing matchable -> the default
+            let want: Vec<String> = {
+                let mut out = vec![];
+                let parse = |t: &str| -> Option<(String, Option<String>)> {
+                    let t = t.split(';').next().unwrap_or("");
+                    let mut it = t.split('-');
+                    let lang = it.next()?.to_string();
+                    if lang.len() < 2 || lang.len() > 3 || !lang.chars().all(|c| c.is_ascii_alphabetic()) {
+                        return None;
+                    }
+                    let region = it.next().map(|r| r.to_string());
+                    if let Some(r) = &region {
+                        if !(r.len() == 2 && r.chars().all(|c| c.is_ascii_alphabetic())) {
+                            return None;
+                        }
+                    }
+                    Some((lang.to_lowercase(), region.map(|r| r.to_uppercase())))
+                };
+                if let Some(h) = h {
+                    for entry in h.split(',') {
+                        let Some((lang, region)) = parse(entry) else { continue };
+                        let sup: Vec<(String, (String, Option<String>))> = eff.iter().filter_map(|n| parse(n).map(|p| (n.clone(), p))).collect();
+                        if let Some((n, _)) = sup.iter().find(|(_, p)| p.0 == lang && p.1 == region) {
+                            out = vec![n.clone()];
+                            break;
+                        }
+                        let m: Vec<String> = sup.iter().filter(|(_, p)| p.0 == lang && p.1.is_none()).map(|(n, _)| n.clone()).collect();
+                        if !m.is_empty() {
+                            out = m;
+                            break;
+                        }
+                    }
+                }
+                if out.is_empty() {
+                    out = vec![default.to_string()];
+                }
+                out
+            };
+            let hx = match h {
+                None => "None".to_string(),
+                Some(t) => format!("Some({t:?})"),
+            };
+            for f in ["resolve_main", "resolve_orphan_sub", "resolve_fn"] {
+                let id = c.next_id;
+                c.next_id += 1;
+                c.probe.stmts.push(format!("p({id}, format!(\"<{{}}>\", {f}({hx})));"));
+                let alts: Vec<String> = want.iter().map(|w| format!("^<{w}>")).collect();
+                c.expected.insert(id, Expect { probe: c.probe.name.clone(), what: format!("{f} locales {locales:?} default {default} Accept-Language {h:?}"), text: alts.join("|"), suffix: false });
+            }
+        }
+        cases.push(c);
+    }
+    let n = cases.len() as u64;
+    execute(&rep, "C15", cases);
+    rep.nontriv(n * headers.len() as u64);
+    rep.sample(json!({"locales": ["fr", "de"], "default": "en", "Accept-Language": "it", "expected": "en"}));
+    let mut cov = serde_json::Map::new();
+    cov.insert("rule".into(), json!(format!("probe crates for configurations {configs:?} (default declared first / in the middle / last / not at all): for Accept-Language in {headers:?} (no cookie) the initial locale of a main context, of a sub-context without parent / cookie / initial locale, and resolve_locale_with_options must be the best match for the header (first matchable entry, exact match preferred) and otherwise the configured default")));
+    cov.insert("exhaustive".into(), json!(true));
+    rep.finish(cov, &["cookies, parents and explicit initial locales are the RT engine's part of this check"])
+}
+
 fn main() {
     let args: Vec<String> = std::env::args().collect();
     let tier = Tier::from_env_or_args(&args);
@@ -2221,6 +2438,7 @@ fn main() {
         "c08" => c07_c08(tier, "C08"),
         "c12" => c12(tier),
         "c13" => c13(tier),
+        "c15" => c15(tier),
         "c17" => c17(tier, "C17"),
         // C11: the tables embedded in the page are one of the exports for lazy loading
         "c11" => c17(tier, "C11"),
